@@ -56,6 +56,8 @@ type Gen struct {
 	n      int
 	// NilRate: chance (out of 16) that a nillable value is nil / a scalar is its zero value.
 	NilRate int
+	// Base is added to numeric tokens so that they are unique across operations and tasks.
+	Base int
 }
 
 func (g *Gen) tok() int { g.n++; return g.n }
@@ -135,7 +137,7 @@ func (g *Gen) nonNil(t reflect.Type, depth int) reflect.Value {
 		v.SetBool(g.R.Intn(2) == 0)
 	case reflect.Int, reflect.Int16, reflect.Int32, reflect.Int64:
 		if !zero {
-			v.SetInt(int64(1000 + g.tok()*7 + g.R.Intn(5)))
+			v.SetInt(int64(g.Base + 1000 + g.tok()*7 + g.R.Intn(5)))
 		}
 	case reflect.Int8:
 		if !zero {
@@ -143,7 +145,7 @@ func (g *Gen) nonNil(t reflect.Type, depth int) reflect.Value {
 		}
 	case reflect.Uint, reflect.Uint16, reflect.Uint32, reflect.Uint64:
 		if !zero {
-			v.SetUint(uint64(2000 + g.tok()*3))
+			v.SetUint(uint64(g.Base + 2000 + g.tok()*3))
 		}
 	case reflect.Uint8:
 		if !zero {
@@ -151,7 +153,7 @@ func (g *Gen) nonNil(t reflect.Type, depth int) reflect.Value {
 		}
 	case reflect.Float32, reflect.Float64:
 		if !zero {
-			v.SetFloat(float64(g.tok()) + 0.5)
+			v.SetFloat(float64(g.Base+g.tok()) + 0.5)
 		}
 	case reflect.String:
 		if !zero {
